@@ -276,8 +276,12 @@ def tie_window_postconditions(ctx, inst, facts):
     cmin = facts.float_const(fty, "MIN_EXPONENT_ROUND_TO_EVEN")
     cmax = facts.float_const(fty, "MAX_EXPONENT_ROUND_TO_EVEN")
     q = ctx.arg_atoms.get(1)
-    his = sorted(set(v for kind, x, v in ctx.cmp_log if kind == "max" and x == q and abs(v - cmax) <= 1))
-    los = sorted(set(v for kind, x, v in ctx.cmp_log if kind == "min" and x == q and abs(v - cmin) <= 1))
+    # a comparison splits the exponents in two: `q <= v` on one side means `q >= v + 1` on the other, so a test written in negated form
+    # (`!(q > MAX)`, De Morgan) contributes the complementary bound
+    ups = set(v for kind, x, v in ctx.cmp_log if kind == "max" and x == q) | set(v - 1 for kind, x, v in ctx.cmp_log if kind == "min" and x == q)
+    downs = set(v for kind, x, v in ctx.cmp_log if kind == "min" and x == q) | set(v + 1 for kind, x, v in ctx.cmp_log if kind == "max" and x == q)
+    his = sorted(v for v in ups if abs(v - cmax) <= 1)
+    los = sorted(v for v in downs if abs(v - cmin) <= 1)
     ctx.record = True
     ctx.oblige("post:tie window as applied covers the largest exponent with exact ties", bool(his) and max(his) >= need_hi, inst, inst.get("span"),
                "effective upper bounds on q next to MAX_EXPONENT_ROUND_TO_EVEN=%d: %s; needs >= %d" % (cmax, his, need_hi))
